@@ -28,6 +28,10 @@ CLAIMED = {
         technique="deterministic simulation: the simulator owns every randomness source (random_state None/int/shared Generators, NumPy's global legacy RNG re-seeded between steps as an injected fault) and replays each draw schedule twice; DKW bounds at 1e-12 against the model's own (conditional) cdf via the Rosenblatt image",
         text="Seeded schedules of draws over 1-3 live sampling objects (all families; 2-D/3-D models of every dependence structure) with interleaved global-RNG skews; every sample of >= 2000 rows is judged by distribution-free DKW bounds (overall and within quantile bins of every earlier coordinate), shapes and supports are checked, and seeded draws must be bit-identical in a second execution of the schedule with identically seeded Generators and different global-RNG state.",
         note="Statistical verdicts have error probability <= 1e-12 per comparison (count in evidence); the reference law is the object's own cdf, as the property states."),
+    "C16": dict(engine="rng", level="exploration", design="DESIGN.md section 3 / C16",
+        technique="deterministic simulation: the simulator owns the model's random_state, NumPy's global RNG (pinned / skewed as injected fault) and the cache history of a TransformedModel; exact push-forward and conditional laws from an independent reference model, DKW and tail-coverage bounds at 1e-12",
+        text="Seeded operation sequences on TransformedModels (transform round trips, Jacobian, push-forward pdf, sampling, Monte-Carlo conditional sample/cdf/quantile from bulk to extreme conditioning values, IFORM contours repeated under global-RNG skew, cache history around a re-fit), each judged against the harness's own exact change-of-variables reference with distribution-free bounds.",
+        note="Reference law computed with the harness's own closed forms from the public parameter values; the sampler's documented design (domain (0,100), density threshold 1e-7) is respected by adding the designed-away mass to every tolerance."),
 }
 
 NA = {
